@@ -90,6 +90,21 @@ def gen_case(prop: str, seed: int, tier: str, index: int, classes: List[str]) ->
             else:
                 op["t"] = round(rng.uniform(0.0, end + 5), 3)
             plan.append(op)
+            if rng.random() < 0.3:
+                # the same thing twice: a second reset / set-spa-info while the first one may still be suspended in the client's handler
+                twin = dict(op, op=rng.choice(["reset", "setinfo"]))
+                d = rng.choice([0.0, 0.05, 0.3, 1.0])
+                if "trigger" in twin:
+                    twin["delay"] = round(twin["delay"] + d, 3)
+                else:
+                    twin["t"] = round(twin["t"] + d, 3)
+                plan.append(twin)
+    if prop == "C08" and cls in ("resets", "resets+faults") and rng.random() < 0.35:
+        # (C08 only: after this fault the library's own recovery is not expected -- that would be C09's matter and is outside its
+        # quantifier -- but a user reset afterwards is still a reset)
+        t_ab = round(rng.uniform(6.0, end + 2), 3)
+        plan.append({"op": "abort", "t": t_ab})
+        plan.append({"op": rng.choice(["reset", "setinfo"]), "t": round(t_ab + rng.choice([0.0, 0.2, 2.0, 10.0]), 3)})
     if cls == "inject":
         for _ in range(rng.randint(2, 10)):
             plan.append({"op": "inject", "t": round(rng.uniform(0.5, end + 5), 3), "event": rng.choice(INJECTABLE)})
@@ -294,7 +309,24 @@ async def scenario(world: WorldA) -> None:
     world.loop.monitors.append(monitor)
     blackout_windows: List[Any] = []
 
-    async with man:
+    exit_raised: List[BaseException] = []
+
+    class _Guard:
+        """The manager's context, with an exception out of its exit kept as a finding instead of ending the run."""
+
+        async def __aenter__(self):
+            return await man.__aenter__()
+
+        async def __aexit__(self, *exc):
+            try:
+                return await man.__aexit__(*exc)
+            except asyncio.CancelledError:
+                raise
+            except Exception as e:          # noqa: BLE001
+                exit_raised.append(e)
+                return False
+
+    async with _Guard():
         pump["t"] = pump_task()
         if pump["t"] is None:
             raise HarnessError("no task named 'SPAMAN:Sequence Pump'")
@@ -312,6 +344,14 @@ async def scenario(world: WorldA) -> None:
                 side_tasks.append(asyncio.create_task(user_op(op), name=f"HARNESS:user-{len(side_tasks)}"))
             elif op["op"] == "inject":
                 side_tasks.append(asyncio.create_task(inject(op), name=f"HARNESS:inject-{len(side_tasks)}"))
+            elif op["op"] == "abort":
+                # the operating system tears the connection's UDP endpoint down under the client (asyncio reports connection_lost); the
+                # user then presses Reconnect: that reset must still land in IDLE
+                spa0 = sysm.spa
+                tr0 = sysm.client_endpoint_of(spa0) if spa0 is not None else None
+                if tr0 is not None and not tr0.is_closing():
+                    tr0.abort()
+                    res.fault("endpoint_torn_down")
         rest = base + cfg["end"] - world.now()
         if rest > 0:
             await asyncio.sleep(rest)
@@ -437,6 +477,9 @@ async def scenario(world: WorldA) -> None:
                 res.probe("blackout_detected_in_time")
         exiting["x"] = True
         world.loop.monitors.remove(monitor)
+    if exit_raised:
+        e = exit_raised[0]
+        world.note(prop, "exit-raised", f"leaving the manager's context raised {exc_site(e)} ({e!r})", sig="exit-raised:" + exc_site(e))
     # a delivery chain cut because the client's own handler was cancelled while suspended owes nothing further
     cut = {d["task_key"] for d in man.deliveries if d.get("cancelled_in_handler")}
     orc.finish(world.now(), exempt_tasks=cut)
